@@ -10,6 +10,10 @@ import Mathlib.Tactic.NormNum.Prime
 import Mathlib.Algebra.Field.ZMod
 import Mathlib.Tactic.ComputeDegree
 import BronVerif.Lemmas.SharingExamples
+import Mathlib.LinearAlgebra.Matrix.NonsingularInverse
+import Mathlib.Tactic.IntervalCases
+import BronVerif.Model.Access
+import BronVerif.Model.Sharing
 import BronVerif.Lemmas.SharingSpan
 import BronVerif.Lemmas.SharingPoly
 /-!
@@ -168,41 +172,8 @@ elements, a set `S` of shareholders is accepted iff `t ≤ |S|`. -/
 theorem accepts_iff_qualified_threshold (t : ℕ) (ids : Finset ℕ)
     (hid : Set.InjOn (Nat.cast : ℕ → F) ids) (h0 : ∀ i ∈ ids, (i : F) ≠ 0)
     (ht : 2 ≤ t ∧ t ≤ ids.card) (S : Finset ℕ) (hS : S ⊆ ids) :
-    (∃ c : S → F, c ᵥ* vandermondeRows t S = Pi.single ⟨0, by omega⟩ 1) ↔ t ≤ S.card := by
-  constructor
-  · rintro ⟨c, hc⟩
-    by_contra hlt
-    push Not at hlt
-    let P : F[X] := killPoly S
-    let k : Fin t → F := fun j => P.coeff j
-    have hdeg : P.natDegree < t := lt_of_le_of_lt (killPoly_natDegree S) hlt
-    have hker : vandermondeRows t S *ᵥ k = 0 := by
-      ext i
-      simp only [mulVec, dotProduct, vandermondeRows, Pi.zero_apply, k]
-      rw [eval_eq_fin_sum P t hdeg, killPoly_eval_node S (fun i hi => h0 i (hS hi)) i i.2]
-    have h1 : (c ᵥ* vandermondeRows t S) ⬝ᵥ k = 1 := by
-      rw [hc, single_one_dotProduct]
-      simp only [k]
-      rw [coeff_zero_eq_eval_zero, killPoly_eval_zero]
-    rw [← dotProduct_mulVec, hker, dotProduct_zero] at h1
-    exact zero_ne_one h1
-  · intro hle
-    obtain ⟨T, hTS, hTc⟩ := Finset.exists_subset_card_eq hle
-    have hidT : Set.InjOn (Nat.cast : ℕ → F) T := hid.mono fun x hx => hS (hTS hx)
-    refine ⟨fun i => if (i : ℕ) ∈ T then (Lagrange.basis T (Nat.cast : ℕ → F) i).eval 0 else 0, ?_⟩
-    ext j
-    simp only [vecMul, dotProduct, vandermondeRows]
-    rw [Finset.sum_coe_sort S (fun i => (if i ∈ T then (Lagrange.basis T (Nat.cast : ℕ → F) i).eval 0 else 0) * (i : F) ^ (j : ℕ))]
-    simp only [ite_mul, zero_mul]
-    rw [← Finset.sum_filter, Finset.filter_mem_eq_inter, Finset.inter_eq_right.mpr hTS]
-    have := lagrange_zero_sum T hidT (X ^ (j : ℕ)) (by
-      rw [degree_X_pow, hTc]; exact_mod_cast j.2)
-    simp only [eval_pow, eval_X] at this
-    rw [this]
-    rcases j with ⟨j, hj⟩
-    cases j with
-    | zero => simp
-    | succ n => simp [Fin.ext_iff]
+    (∃ c : S → F, c ᵥ* vandermondeRows t S = Pi.single ⟨0, by omega⟩ 1) ↔ t ≤ S.card :=
+  vandermonde_accepts_iff t (by omega) S (hid.mono fun _ hx => hS hx) (fun i hi => h0 i (hS hi))
 
 /-- non-vacuity: (2,3) over `ZMod 7`, ids `{1,2,3}`, the set `{1,3}` is accepted -/
 example : ∃ c : (({1, 3} : Finset ℕ)) → ZMod 7,
@@ -354,5 +325,90 @@ example : ∑ p ∈ ({0, 1} : Finset (Fin 3)), ∑ j ∈ Finset.univ.filter (fun
   isn_additive ![3, 5] {0, 1} ![1, 0] (by decide)
 
 end Clauses
+
+/-! ## gate trees (Liu–Cao–Wong) and hierarchical (Birkhoff) — partial -/
+
+section Partial
+open BronVerif.Access
+
+/-- Full statement for gate trees, about the model's `treeMSP` (= `boolexpr.InducedMSP`): over a
+field in which the child positions `0..n` are distinct, the programme accepts exactly the sets of
+shareholders on which the tree evaluates to true.  **Not proved**; established per instance by the
+C02 driver (all subsets of every generated tree, own solver and own rank computation). -/
+def lcw_statement (F : Type) [Field F] [DecidableEq F] : Prop :=
+  ∀ root : Tree, root.valid = true →
+    Set.InjOn (Nat.cast : ℕ → F) (Finset.range (root.size + 1)) →
+    ∀ S : List ℕ, S.all (root.leaves.contains ·) = true →
+      (treeMSP (F := F) root).accepts S = root.eval S
+
+/-- Proved part of `lcw_statement`: a single threshold gate over leaves at child positions `1..n`
+(the first insertion step of Liu–Cao–Wong; `t = 1` is OR, `t = n` is AND).  Its rows are
+`[1, x, …, x^(t-1)]` with `x` the child position, and a set of children spans `e₀` iff it has at
+least `t` members.  Missing for the full statement: the insertion lemma for nested gates (a row is
+replaced by the block `[row | x, …, x^(t-1)]` of its children) and repeated leaves. -/
+theorem lcw_single_gate_partial {F : Type*} [Field F] (t n : ℕ) (ht : 0 < t)
+    (hinj : Set.InjOn (Nat.cast : ℕ → F) (Finset.Icc 0 n))
+    (S : Finset ℕ) (hS : S ⊆ Finset.Icc 1 n) :
+    (∃ c : S → F, c ᵥ* vandermondeRows t S = Pi.single ⟨0, ht⟩ 1) ↔ t ≤ S.card := by
+  have hsub : ∀ i ∈ S, i ∈ Finset.Icc 0 n ∧ 1 ≤ i := fun i hi => by
+    have := Finset.mem_Icc.mp (hS hi); exact ⟨Finset.mem_Icc.mpr ⟨by omega, this.2⟩, this.1⟩
+  refine vandermonde_accepts_iff t ht S (fun a ha b hb h => hinj (hsub a ha).1 (hsub b hb).1 h) ?_
+  intro i hi hz
+  have h0 : (0 : ℕ) ∈ (Finset.Icc 0 n : Finset ℕ) := Finset.mem_Icc.mpr ⟨le_refl _, by omega⟩
+  have := hinj (hsub i hi).1 h0 (by simpa using hz)
+  have := (hsub i hi).2
+  omega
+
+/-- non-vacuity: a 2-of-3 gate over `ZMod 7`, children 1 and 3 present -/
+example : ∃ c : (({1, 3} : Finset ℕ)) → ZMod 7,
+    c ᵥ* vandermondeRows 2 {1, 3} = Pi.single ⟨0, by omega⟩ 1 := by
+  refine (lcw_single_gate_partial (F := ZMod 7) 2 3 (by omega) ?_ {1, 3} (by decide)).mpr (by decide)
+  intro a ha b hb h
+  have ha' := Finset.mem_Icc.mp ha
+  have hb' := Finset.mem_Icc.mp hb
+  obtain ⟨_, ha2⟩ := ha'
+  obtain ⟨_, hb2⟩ := hb'
+  interval_cases a <;> interval_cases b <;> first | rfl | (exfalso; revert h; decide)
+
+/-- Full statement for hierarchical conjunctive thresholds, about the model's `hierMSP`
+(= `hierarchical.InducedMSP`, Birkhoff–Vandermonde rows) under the constructor's checks and
+`CheckConstraints` for a field with `q` elements.  **Not proved** (it needs Tassa's Theorem 3: the
+field-size condition makes every Birkhoff matrix satisfying Pólya's condition non-singular);
+established per instance by the C02 driver. -/
+def hier_statement (F : Type) [Field F] [DecidableEq F] [Fintype F] : Prop :=
+  ∀ levels : List (Int × List ℕ), (Policy.hier levels).validate = .ok () →
+    hierCheck (Fintype.card F) levels = .ok () →
+    ∀ S : List ℕ, S.all ((Policy.hier levels).shareholders.contains ·) = true →
+      (hierMSP (F := F) levels).accepts S = (Policy.hier levels).isQualified S
+
+/-- Proved part of the "qualified ⇒ accepted" direction of `hier_statement` (and of any other
+family): if some `d` rows of the set `S` form a non-singular `d × d` matrix — for the Birkhoff rows
+of a qualified set this is what Tassa's theorem supplies — then `S` is accepted. -/
+theorem hier_qualified_accepted_partial {F : Type*} [Field F] {ρ : Type*} [Fintype ρ]
+    [DecidableEq ρ] {d : ℕ} (M : Matrix ρ (Fin d) F) (z : Fin d) (S : Finset ρ) (e : Fin d → ρ)
+    (he : ∀ k, e k ∈ S) (hdet : (M.submatrix e id).det ≠ 0) :
+    ∃ c : ρ → F, (∀ i ∉ S, c i = 0) ∧ c ᵥ* M = Pi.single z 1 := by
+  set A := M.submatrix e id with hA
+  have hunit : IsUnit A.det := isUnit_iff_ne_zero.mpr hdet
+  let c' : Fin d → F := (Pi.single z 1) ᵥ* A⁻¹
+  have hc' : c' ᵥ* A = Pi.single z 1 := by
+    simp only [c', vecMul_vecMul, Matrix.nonsing_inv_mul A hunit, vecMul_one]
+  refine ⟨fun i => ∑ k, if e k = i then c' k else 0, ?_, ?_⟩
+  · intro i hi
+    refine Finset.sum_eq_zero fun k _ => ?_
+    have : e k ≠ i := fun h => hi (h ▸ he k)
+    simp [this]
+  · rw [← hc']
+    ext j
+    simp only [vecMul, dotProduct, Finset.sum_mul, hA, submatrix_apply, id]
+    rw [Finset.sum_comm]
+    refine Finset.sum_congr rfl fun k _ => ?_
+    simp [ite_mul]
+
+/-- non-vacuity: rows 0 and 1 of the (2,3) programme over `ZMod 7` form a non-singular square -/
+example : ∃ c : Fin 3 → ZMod 7, (∀ i ∉ ({0, 1} : Finset (Fin 3)), c i = 0) ∧ c ᵥ* M23 = Pi.single 0 1 :=
+  hier_qualified_accepted_partial M23 0 {0, 1} ![0, 1] (by decide) (by decide)
+
+end Partial
 
 end BronVerif.Props.C02
